@@ -271,6 +271,11 @@ def oracle(ctx: Ctx, per: int):
                 ctx.violation("request-of-another-sender-taken-for-the-echo", f"{other} (another device's request) has the echo's header {other._hdr}", {**case, "packet": str(other)}, "input")
         except Exception:  # noqa: BLE001, S110
             pass
+        for stray in (f"045 RP --- 01:145038 {GW} --:------ 30C9 003 0407D0", f"045 RP --- 10:123456 {GW} --:------ 3220 005 00C01A0000", f"045  I --- 01:145038 {GW} --:------ 2309 003 0307D0"):
+            sp = Packet.from_port(D, stray)
+            if sp._hdr not in (cmd.tx_header.replace(HGI, GW), (cmd.rx_header or "").replace(HGI, GW)) and fsm_echo(cmd, sp) is not None:
+                ctx.violation("unrelated-packet-ends-the-wait-for-the-echo", f"{stray} (addressed to the gateway, another code / zone) arriving while the echo of {frame} is awaited ends the wait",
+                              {**case, "packet": stray}, "input")
         rx = CODES_SCHEMA.get(code, {}).get(rverb)
         if not rx:
             continue
@@ -305,6 +310,13 @@ def oracle(ctx: Ctx, per: int):
                 why = "request-to-a-DTS-thermostat" if dts else f"{type(err).__name__}:{code}"
                 ctx.violation(f"reply-header-raises:{why}", f"the reply {line} to {frame} cannot be given a header: {err}", {**case, "reply": line}, "input")
                 continue
+            # the same reply arriving BEFORE the echo (the real WantEcho decides): taken for the reply, or left alone -- never for the echo
+            early = fsm_echo(cmd, r)
+            if early == "echo":
+                ctx.violation(f"reply-taken-for-the-echo:{code}", f"{line} is the reply to {frame} but WantEcho takes it for the echo", {**case, "reply": line}, "input")
+            rule_early = bool(cmd.rx_header) and r._hdr == cmd.rx_header.replace(HGI, GW)     # before the echo there is no 0418 null-entry exception
+            if (early == "reply") != rule_early:
+                MISMATCH.append(("reply-before-echo", str(cmd), str(r), rule_early, early))
             if not recognised:
                 why = "request-to-a-DTS-thermostat" if dts else code
                 ctx.violation(f"reply-not-recognised:{why}", f"{line} (header {hdr}) is the proper reply to {frame} (rx_header {cmd.rx_header}) but is not recognised",
@@ -328,6 +340,9 @@ def oracle(ctx: Ctx, per: int):
             for what, ml in misses:
                 try:
                     m = Packet.from_port(D, ml)
+                    if m._hdr != hdr and m._hdr != cmd.rx_header.replace(HGI, GW) and fsm_echo(cmd, m) is not None and not rule_echo(cmd, m):
+                        ctx.violation(f"near-miss-taken-before-the-echo:{what}", f"{ml} differs from the reply in its {what}; arriving while the echo of {frame} is awaited it ends the wait",
+                                      {**case, "packet": ml}, "input")
                     if m._hdr != hdr and m._hdr != cmd.rx_header.replace(HGI, GW) and is_reply(cmd, m, echo):
                         ctx.violation(f"near-miss-taken-for-the-reply:{what}", f"{ml} differs from the reply in its {what} but is recognised as the reply to {frame}", {**case, "packet": ml}, "input")
                     if m._hdr == hdr and what != "verb":
